@@ -54,6 +54,22 @@ def dec(name, v):
     return int(v)
 
 
+def _xy(flavour):
+    """flavour component 3: every RDM / condition also carries a 2-D array descriptor 'xy' (one row per item)"""
+    return bool(flavour[2]) if len(flavour) > 2 else False
+
+
+def _offset(flavour):
+    """flavour component 4: stored value = token - offset, so that one source entry (RDM 1, conditions 1 and 2) is
+    exactly 0 although its two conditions differ"""
+    return (112 if flavour[3] else 0) if len(flavour) > 3 else 0
+
+
+def ext_flavour(i):
+    """the 16 extended flavours, rotating with a behaviour / trace index"""
+    return tuple(FLAVOURS[i % 4]) + ((i // 4) % 2, (i // 8) % 2)
+
+
 def _container(vals, flavour):
     return list(vals) if flavour[0] == 'list' else np.array(vals)
 
@@ -66,13 +82,17 @@ def make_source(nr, nc, nanpairs, flavour):
     for r in range(nr):
         for k in range(n):
             t = tok(r + 1, int(iu[0][k]) + 1, int(iu[1][k]) + 1, nanpairs)
-            vec[r, k] = np.nan if t == NAN else t
-    return rsatoolbox.rdm.RDMs(
-        vec, dissimilarity_measure='tok', descriptors={'session': 'x'},
-        rdm_descriptors={'subj': _container([enc('subj', r + 1, flavour) for r in range(nr)], flavour),
-                         'grp': _container([enc('grp', grp(r + 1), flavour) for r in range(nr)], flavour)},
-        pattern_descriptors={'cond': _container([enc('cond', c + 1, flavour) for c in range(nc)], flavour),
-                             'cat': _container([enc('cat', cat(c + 1), flavour) for c in range(nc)], flavour)})
+            vec[r, k] = np.nan if t == NAN else t - _offset(flavour)
+    rd = {'subj': _container([enc('subj', r + 1, flavour) for r in range(nr)], flavour),
+          'grp': _container([enc('grp', grp(r + 1), flavour) for r in range(nr)], flavour)}
+    pd = {'cond': _container([enc('cond', c + 1, flavour) for c in range(nc)], flavour),
+          'cat': _container([enc('cat', cat(c + 1), flavour) for c in range(nc)], flavour)}
+    if _xy(flavour):
+        # (per RDM only: concat's search for an aligning pattern descriptor hashes the values of every pattern
+        #  descriptor, so array-valued PATTERN descriptors are outside what the container supports)
+        rd['xy'] = np.array([[r + 1, r + 101] for r in range(nr)])
+    return rsatoolbox.rdm.RDMs(vec, dissimilarity_measure='tok', descriptors={'session': 'x'},
+                               rdm_descriptors=rd, pattern_descriptors=pd)
 
 
 class DrawMismatch(Exception):
@@ -120,7 +140,7 @@ class ProjectionError(Exception):
         self.field = field
 
 
-def project(ob, *, check=True):
+def project(ob, *, check=True, flavour=()):
     """real RDMs -> abstract record; with ``check`` also verifies what the specification keeps as
     ghost structure: descriptor columns attached (grp = Grp(subj), cat = Cat(cond)), vector and
     square forms agree, n_rdm / n_cond consistent."""
@@ -135,7 +155,8 @@ def project(ob, *, check=True):
     except (KeyError, TypeError, ValueError) as e:
         raise ProjectionError('desc', f'cannot decode descriptors: {e!r}')
     pinv = [int(v) + 1 for v in ob.descriptors['p_inv']] if 'p_inv' in ob.descriptors else []
-    vec = [[NAN if np.isnan(x) else int(round(x)) for x in row] for row in d]
+    off = _offset(flavour)
+    vec = [[NAN if np.isnan(x) else int(round(x)) + off for x in row] for row in d]
     if check:
         if any((not np.isnan(x)) and abs(x - round(x)) > 1e-9 for row in d for x in row):
             raise ProjectionError('vec', 'a stored value is not a source token')
@@ -145,6 +166,14 @@ def project(ob, *, check=True):
             raise ProjectionError('pats', f'n_cond={ob.n_cond}, vector length {d.shape[1]}, {len(pats)} cond labels')
         if len(ridx) != len(rows) or len(pidx) != len(pats):
             raise ProjectionError('index', 'index descriptor has the wrong length')
+        for kind, dct, ids in (('rdm', ob.rdm_descriptors, rows), ('pattern', ob.pattern_descriptors, pats)):
+            if 'xy' in dct:
+                try:
+                    got = [[int(v) for v in np.ravel(x)] for x in dct['xy']]
+                except Exception as e:
+                    raise ProjectionError('desc', f'{kind} descriptor xy unreadable: {e!r}')
+                if got != [[i, i + 100] for i in ids]:
+                    raise ProjectionError('desc', f'{kind} descriptor xy {got} not attached to items {ids}')
         if 'grp' in ob.rdm_descriptors:
             g = [dec('grp', v) for v in ob.rdm_descriptors['grp']]
             if g != [grp(r) for r in rows]:
@@ -212,6 +241,8 @@ def apply_event(heap, e, flavour, maxobj, scratch=None, variant=0):
         return v
     if op == 'getitem':
         idx = [v - 1 for v in vals]
+        if variant % 5 == 4:
+            idx = [i - ob.n_rdm for i in idx]        # negative positions count from the end
         if len(idx) == 1 and variant % 3 == 0:
             new = ob[idx[0]]
         elif len(idx) == 1 and variant % 3 == 1:
@@ -336,7 +367,7 @@ def check_df(df, ob_abs, flavour):
         for p in range(n):
             for q in range(p + 1, n):
                 row = df.iloc[k]
-                v = NAN if np.isnan(row['dissimilarity']) else int(round(row['dissimilarity']))
+                v = NAN if np.isnan(row['dissimilarity']) else int(round(row['dissimilarity'])) + _offset(flavour)
                 exp = ob_abs['vec'][r][k - r * (n * (n - 1) // 2)]
                 if v != exp or dec('subj', row['subj']) != ob_abs['rows'][r] \
                         or dec('cond', row['cond_1']) != ob_abs['pats'][p] \
@@ -346,8 +377,8 @@ def check_df(df, ob_abs, flavour):
     return None
 
 
-def project_heap(heap, maxobj):
-    return [project(heap[o]) if o in heap else dict(NULL) for o in range(1, maxobj + 1)]
+def project_heap(heap, maxobj, flavour=()):
+    return [project(heap[o], flavour=flavour) if o in heap else dict(NULL) for o in range(1, maxobj + 1)]
 
 
 def replay(hist, const, flavour, variant=0, scratch=None):
@@ -356,6 +387,8 @@ def replay(hist, const, flavour, variant=0, scratch=None):
     heap = {1: make_source(const['NR'], const['NC'], const['NanPairs'], flavour)}
     for k, st in enumerate(hist):
         e = st['ev']
+        if e['op'] == 'to_df' and _xy(flavour):
+            continue        # a long-form table cannot hold the 2-D array descriptor of this flavour
         try:
             extra = apply_event(heap, dict(e), flavour, maxobj, scratch=scratch, variant=variant + k)
         except DrawMismatch as ex:
@@ -376,7 +409,7 @@ def replay(hist, const, flavour, variant=0, scratch=None):
             is_result = (o == target and e['op'] in ('reorder', 'sort_alpha', 'sort_list', 'append')) or \
                         (o not in _prev_live(hist, k, maxobj))
             try:
-                real = project(heap[o])
+                real = project(heap[o], flavour=flavour)
             except ProjectionError as pe:
                 where = e['op'] if is_result else f"frame/{e['op']}"
                 return k, f'{where}/{pe.field}', str(pe)
@@ -412,7 +445,7 @@ def random_trace(rng, const, flavour, length, ops, scratch=None):
     tries = 0
     while len(events) < length and tries < length * 30:
         tries += 1
-        absheap = {o: project(heap[o], check=False) for o in heap}
+        absheap = {o: project(heap[o], check=False, flavour=flavour) for o in heap}
         o = int(rng.choice(sorted(heap)))
         a = absheap[o]
         op = str(rng.choice(ops))
@@ -434,7 +467,7 @@ def random_trace(rng, const, flavour, length, ops, scratch=None):
         elif op in ('subset', 'subsample'):
             e['by'] = str(rng.choice(['index', 'subj', 'grp']))
             c = col('r', e['by'])
-            k = int(rng.integers(1, 3))
+            k = int(rng.integers(1, 5)) if op == 'subsample' else int(rng.integers(1, 3))
             v = [int(x) for x in rng.choice(c, size=k, replace=(op == 'subsample'))] if (op == 'subsample' or len(set(c)) >= k) else [int(c[0])]
             if op == 'subset':
                 v = list(dict.fromkeys(v))
@@ -499,7 +532,7 @@ def random_trace(rng, const, flavour, length, ops, scratch=None):
             if sorted(a['pinv']) != list(range(1, npat + 1)):
                 continue
         elif op == 'to_df':
-            if a['pdem']:
+            if a['pdem'] or _xy(flavour):
                 continue
         elif op == 'drop':
             if len(heap) < 2:
@@ -518,14 +551,14 @@ def random_trace(rng, const, flavour, length, ops, scratch=None):
         ret = extra[1] if (extra is not None and extra[0] == 'ret') else [[], []]
         if extra is not None and extra[0] == 'df':
             try:
-                msg = check_df(extra[1], project(heap[extra[2]]), flavour)
+                msg = check_df(extra[1], project(heap[extra[2]], flavour=flavour), flavour)
             except ProjectionError as pe:
                 msg = str(pe)
             if msg:
                 events.append({'ev': e, 'post': None, 'error': f'projection/rows: DataFrame export: {msg}'})
                 break
         try:
-            post = project_heap(heap, maxobj)
+            post = project_heap(heap, maxobj, flavour)
         except ProjectionError as pe:
             events.append({'ev': e, 'post': None, 'error': f'projection/{pe.field}: {pe}'})
             break
